@@ -467,7 +467,11 @@ func (t *diskTrack) Write(buf []byte) (int, error) {
 
 	if valid(t.lastSeqno) {
 		lastSeqno := uint16(value(t.lastSeqno))
-		if ((p.SequenceNumber - lastSeqno) & 0x8000) == 0 {
+		if p.SequenceNumber == lastSeqno {
+			// a duplicate of the latest packet, which the
+			// samplebuilder does not handle well
+			return len(buf), nil
+		} else if ((p.SequenceNumber - lastSeqno) & 0x8000) == 0 {
 			// jump forward
 			count := p.SequenceNumber - lastSeqno
 			if count < 256 {
